@@ -17,6 +17,9 @@ try:
         lines = [l for l in r.stdout.splitlines() if l.startswith(("VIOLATION", "BROKEN", "FAILING-INPUT", "KNOWN"))]
         res[p] = {"exit": r.returncode, "violation_line": next((l for l in lines if l.startswith("VIOLATION")), None),
                   "first_reasons": [l[:260] for l in lines if not l.startswith("VIOLATION")][:4]}
+        kinds = sorted({l.split(":")[1].strip().split("-broken")[0] + "-broken" for l in lines if l.startswith("BROKEN:") and "-broken" in l})
+        res[p]["how"] = {"stages_broken": kinds, "concrete_failing_input": any(l.startswith("FAILING-INPUT") for l in lines),
+                         "no_failing_input_found": bool(res[p]["violation_line"] and res[p]["violation_line"].endswith("no-failing-input-found"))}
         print(sid, p, "exit", r.returncode, "|", (res[p]["violation_line"] or "no violation reported")[:160])
         for l in res[p]["first_reasons"][:3]:
             print("    ", l[:220])
